@@ -38,6 +38,13 @@ claim("C01",
       "Piece.Done. Partial: goroutine interleavings, SHA-1 collision freeness and storage semantics are outside.",
       "DESIGN.md §4 C01")
 
+claim("C05",
+      "Proof of the ordering links that can be stated per function: every data file is opened O_SYNC|O_RDWR (bit-exact), "
+      "a piece bit is set only in the handler of a write that returned nil (shared with C01), storage writes happen only "
+      "on the piece-writer path. Partial: crash points, bbolt atomicity and kernel durability are assumptions; this family "
+      "cannot kill a process.",
+      "DESIGN.md §4 C05")
+
 na("C10", "liveness/progress over unbounded schedules of several goroutines: a function contract cannot state fairness or progress measures (DESIGN.md §4 C10)")
 na("C20", "data races and lock-ups quantify over schedules; the contracts are sequential and assume the single-owner discipline C20 asks to prove (DESIGN.md §4 C20)")
 for p in ["C01", "C02", "C04", "C05", "C06", "C07", "C08", "C09", "C11", "C12", "C13", "C14", "C15", "C17", "C18", "C19"]:
